@@ -244,6 +244,32 @@ Proof.
   - unfold d', apply_flush. cbn [d_entries]. apply ksorted_filter, (ci_sorted _ Hd).
 Qed.
 
+Lemma oc_same_refl_pre a : oc_same a a = true.
+Proof. destruct a; cbn; [apply identical_refl | reflexivity]. Qed.
+
+(** point-in-time: the last version of an entity not newer than [at_] *)
+Definition upto (at_ : Z) (e : entry) : bool := en_time e <=? at_.
+Definition vbestc (d : dstate) (id : uri) (at_ : Z) : option content :=
+  option_map en_c (last_opt (filter (upto at_) (versions_of d id))).
+
+Lemma ksorted_suffix l1 l2 : ksorted (l1 ++ l2) -> ksorted l2.
+Proof. induction l1 as [|a l1 IH]; cbn [app ksorted]; [auto | intros [_ H]; auto]. Qed.
+
+Lemma best_drop (P : entry -> bool) pre prev v vs :
+  (P v = true -> P prev = true) -> identical (en_c prev) (en_c v) = true ->
+  oc_same (option_map en_c (last_opt (filter P (pre ++ prev :: vs))))
+          (option_map en_c (last_opt (filter P (pre ++ prev :: v :: vs)))) = true.
+Proof.
+  intros HP Hid.
+  replace (pre ++ prev :: v :: vs) with ((pre ++ [prev]) ++ [v] ++ vs) by (now rewrite <- app_assoc).
+  replace (pre ++ prev :: vs) with ((pre ++ [prev]) ++ vs) by (now rewrite <- app_assoc).
+  rewrite !filter_app, !last_opt_app.
+  destruct (last_opt (filter P vs)) as [x|]; [apply oc_same_refl_pre|].
+  cbn [filter]. destruct (P v) eqn:Pv; cbn [last_opt].
+  - rewrite (HP eq_refl). cbn [last_opt option_map oc_same]. exact Hid.
+  - apply oc_same_refl_pre.
+Qed.
+
 (** ** 4. every prefix of the repaired strategy's instruction stream is invisible *)
 Lemma oc_same_refl a : oc_same a a = true.
 Proof. destruct a; cbn; [apply identical_refl | reflexivity]. Qed.
@@ -258,17 +284,19 @@ Record inv_rel (d d' : dstate) : Prop := {
   ir_inv : cinv d';
   ir_next : d_next d' = d_next d;
   ir_last : forall id, oc_same (vlastc d' id) (vlastc d id) = true;
+  ir_best : forall id at_, oc_same (vbestc d' id at_) (vbestc d id at_) = true;
   ir_sub : forall e, In e (d_entries d') -> In e (d_entries d)
 }.
 
 Lemma inv_rel_refl d : cinv d -> inv_rel d d.
-Proof. intros H. constructor; auto. intros; apply oc_same_refl. Qed.
+Proof. intros H. constructor; auto; intros; apply oc_same_refl. Qed.
 
 Lemma inv_rel_trans d1 d2 d3 : inv_rel d1 d2 -> inv_rel d2 d3 -> inv_rel d1 d3.
 Proof.
-  intros [A1 A2 A3 A4] [B1 B2 B3 B4]. constructor; auto.
+  intros [A1 A2 A3 A5 A4] [B1 B2 B3 B5 B4]. constructor; auto.
   - congruence.
   - intros id. eapply oc_same_trans; [apply B3 | apply A3].
+  - intros id at_. eapply oc_same_trans; [apply B5 | apply A5].
 Qed.
 
 Lemma apply_flush_noop cf d i : i_del i = None -> i_repoint i = None -> apply_flush cf d [i] = d.
@@ -305,12 +333,19 @@ Proof.
       set (d1 := apply_flush cf_fixed d [dup_instr prev v w (match vs with [] => true | _ => false end)]) in *.
       destruct (IH prev pre d1 q rest Hd1 Hv1 Hq) as [Hr Ho].
       split.
-      * eapply inv_rel_trans; [|exact Hr]. constructor; [exact Hd1 | exact Hn1 | |].
+      * eapply inv_rel_trans; [|exact Hr]. constructor; [exact Hd1 | exact Hn1 | | |].
         -- intros id'. unfold vlastc. destruct (Z.eq_dec id' id) as [->|Hne].
            ++ rewrite Hv1, Hv. rewrite !last_opt_app. cbn [last_opt].
               destruct vs as [|v2 vs]; cbn [last_opt option_map oc_same].
               ** exact Hid.
               ** destruct (last_opt vs); cbn [option_map oc_same]; apply identical_refl.
+           ++ rewrite (Ho1 id' Hne). apply oc_same_refl.
+        -- intros id' at_. unfold vbestc. destruct (Z.eq_dec id' id) as [->|Hne].
+           ++ rewrite Hv1, Hv. apply best_drop; [|exact Hid].
+              assert (Hsv : ksorted (versions_of d id)) by (apply ksorted_filter, (ci_sorted _ Hd)).
+              rewrite Hv in Hsv. apply ksorted_suffix in Hsv. cbn [ksorted] in Hsv. destruct Hsv as [Hf _].
+              apply Forall_cons_iff in Hf. destruct Hf as [Hk _].
+              unfold upto. rewrite !Z.leb_le. unfold klt in Hk. lia.
            ++ rewrite (Ho1 id' Hne). apply oc_same_refl.
         -- intros e He. rewrite He1 in He. apply filter_In in He. apply He.
       * intros id' Hne. rewrite (Ho id' Hne). now apply Ho1.
@@ -497,22 +532,16 @@ Proof.
     fold (efeed (filter keep E)); now rewrite Hrest.
 Qed.
 
-Theorem compact_feed fl thr order d :
-  f_lenkeys fl = false -> cinv d -> NoDup order ->
-  (forall id, versions_of d id <> [] -> In id order) ->
-  feed_of (compact_ds cf_fixed fl thr order d) = spec_compact (feed_of d).
+(** positional characterisation of the keys the complete instruction stream deletes *)
+Lemma all_char d order E1 e E2 :
+  cinv d -> NoDup order -> d_entries d = E1 ++ e :: E2 ->
+  kmem (key_of e) (del_keys (all_instrs cf_fixed identical d order))
+  = existsb (Z.eqb (en_id e)) order && ddec E1 e.
 Proof.
-  intros Hfl Hd Hnd Hcov. rewrite compact_one_flush, (compact_eqb_fixed fl Hfl).
-  unfold feed_of, spec_compact, apply_flush. cbn [d_entries]. fold (efeed (d_entries d)).
-  change (@nil (uri * content)) with (efeed []).
-  apply (feed_filter_dedup _ (d_entries d) []). intros E1 e E2 HE. cbn [app]. f_equal.
-  rewrite (kmem_all_instrs _ _ _ _ _ Hnd).
+  intros Hd Hnd HE. rewrite (kmem_all_instrs _ _ _ _ _ Hnd).
+  destruct (existsb (Z.eqb (en_id e)) order); [cbn [andb]|reflexivity].
   assert (Hvs : versions_of d (en_id e) = filter (has_id (en_id e)) E1 ++ e :: filter (has_id (en_id e)) E2).
   { rewrite versions_of_eq, HE, filter_app. cbn [filter]. unfold has_id at 2. now rewrite Z.eqb_refl. }
-  assert (Hin : existsb (Z.eqb (en_id e)) order = true).
-  { apply existsb_exists. exists (en_id e). split; [|apply Z.eqb_refl]. apply Hcov. rewrite Hvs.
-    intros Hnil. apply app_eq_nil in Hnil. destruct Hnil as [_ Hn]. discriminate. }
-  rewrite Hin.
   assert (Hsv : ksorted (versions_of d (en_id e))) by (apply ksorted_filter, (ci_sorted _ Hd)).
   rewrite Hvs in Hsv. pose proof (ksorted_mid_keys _ _ _ Hsv) as Hkeys.
   unfold ddec. rewrite current_of_last_entry, last_entry_versions.
@@ -523,6 +552,74 @@ Proof.
   - rewrite (pass_char e _ L1 f f (identical_refl _)).
     + unfold lastc. destruct (last_opt L1); reflexivity.
     + intros x Hx. rewrite vkey_eqb_sym. apply Hkeys. cbn [app]. right. exact Hx.
+Qed.
+
+Theorem compact_feed fl thr order d :
+  f_lenkeys fl = false -> cinv d -> NoDup order ->
+  (forall id, versions_of d id <> [] -> In id order) ->
+  feed_of (compact_ds cf_fixed fl thr order d) = spec_compact (feed_of d).
+Proof.
+  intros Hfl Hd Hnd Hcov. rewrite compact_one_flush, (compact_eqb_fixed fl Hfl).
+  unfold feed_of, spec_compact, apply_flush. cbn [d_entries]. fold (efeed (d_entries d)).
+  change (@nil (uri * content)) with (efeed []).
+  apply (feed_filter_dedup _ (d_entries d) []). intros E1 e E2 HE. cbn [app]. f_equal.
+  rewrite (all_char d order E1 e E2 Hd Hnd HE).
+  replace (existsb (Z.eqb (en_id e)) order) with true; [reflexivity|].
+  symmetry. apply existsb_exists. exists (en_id e). split; [|apply Z.eqb_refl]. apply Hcov.
+  rewrite versions_of_eq, HE, filter_app. cbn [filter]. unfold has_id at 2. rewrite Z.eqb_refl.
+  intros Hnil. apply app_eq_nil in Hnil. destruct Hnil as [_ Hn]. discriminate.
+Qed.
+
+(** removing only versions identical to their immediate predecessor does not change the de-duplicated feed *)
+Lemma dedup_filter keep : forall E A A',
+  (forall id, oc_same (current_of (efeed A') id) (current_of (efeed A) id) = true) ->
+  (forall E1 e E2, E = E1 ++ e :: E2 -> keep e = false -> ddec (A ++ E1) e = true) ->
+  dedup_from (efeed A') (efeed (filter keep E)) = dedup_from (efeed A) (efeed E).
+Proof.
+  induction E as [|e E IH]; intros A A' Hc H; [reflexivity|].
+  assert (Htail : forall E1 x E2, E = E1 ++ x :: E2 -> keep x = false -> ddec ((A ++ [e]) ++ E1) x = true).
+  { intros E1 x E2 HE Hk. rewrite <- app_assoc. cbn [app]. apply (H (e :: E1) x E2); [now rewrite HE | exact Hk]. }
+  cbn [filter]. destruct (keep e) eqn:K.
+  - cbn [efeed map dedup_from]. fold (efeed E) (efeed (filter keep E)).
+    assert (Hrest : dedup_from (efeed A' ++ [(en_id e, en_c e)]) (efeed (filter keep E))
+                    = dedup_from (efeed A ++ [(en_id e, en_c e)]) (efeed E)).
+    { replace (efeed A' ++ [(en_id e, en_c e)]) with (efeed (A' ++ [e])) by (now rewrite efeed_app).
+      replace (efeed A ++ [(en_id e, en_c e)]) with (efeed (A ++ [e])) by (now rewrite efeed_app).
+      apply IH; [|exact Htail].
+      intros id. rewrite !efeed_app. cbn [efeed map]. rewrite !current_of_snoc.
+      destruct (Z.eqb (en_id e) id); [apply oc_same_refl | apply Hc]. }
+    rewrite Hrest. pose proof (Hc (en_id e)) as Hs.
+    destruct (current_of (efeed A') (en_id e)) as [x|], (current_of (efeed A) (en_id e)) as [y|];
+      cbn [oc_same] in Hs; try discriminate; [|reflexivity].
+    now rewrite (identical_cong_l x y (en_c e) Hs).
+  - pose proof (H [] e E eq_refl K) as Hd. rewrite app_nil_r in Hd. unfold ddec in Hd.
+    cbn [efeed map dedup_from]. fold (efeed E).
+    destruct (current_of (efeed A) (en_id e)) as [p|] eqn:Ep; [|discriminate]. rewrite Hd.
+    replace (efeed A ++ [(en_id e, en_c e)]) with (efeed (A ++ [e])) by (now rewrite efeed_app).
+    apply IH; [|exact Htail].
+    intros id. rewrite efeed_app. cbn [efeed map]. rewrite current_of_snoc.
+    destruct (Z.eqb_spec (en_id e) id) as [<-|Hne]; [|apply Hc].
+    eapply oc_same_trans; [apply Hc|]. rewrite Ep. cbn [oc_same]. exact Hd.
+Qed.
+
+Lemma kmem_prefix k p rest : kmem k (del_keys p) = true -> kmem k (del_keys (p ++ rest)) = true.
+Proof. intros H. now rewrite del_keys_app, kmem_app, H. Qed.
+
+(** C12_crash, feed clause: whatever number of flushes was committed, the feed left behind de-duplicates to the
+    same feed as the one before (only versions identical to their immediate predecessor are missing) *)
+Theorem crash_feed fl thr order k d :
+  f_lenkeys fl = false -> cinv d -> NoDup order ->
+  spec_compact (feed_of (compact_crash cf_fixed fl thr order k d)) = spec_compact (feed_of d).
+Proof.
+  intros Hfl Hd Hnd.
+  destruct (crash_is_prefix cf_fixed fl thr order k d) as (p & rest & Hp & ->).
+  rewrite (compact_eqb_fixed fl Hfl) in Hp.
+  unfold feed_of, spec_compact, apply_flush. cbn [d_entries]. fold (efeed (d_entries d)).
+  change (@nil (uri * content)) with (efeed []).
+  apply dedup_filter; [intros; apply oc_same_refl|].
+  intros E1 e E2 HE Hk. cbn [app]. apply negb_false_iff in Hk.
+  apply (kmem_prefix _ _ rest) in Hk. rewrite <- Hp in Hk.
+  rewrite (all_char d order E1 e E2 Hd Hnd HE) in Hk. apply andb_true_iff in Hk. apply Hk.
 Qed.
 
 Lemma last_opt_nonempty {A} (x : A) l : last_opt (x :: l) <> None.
